@@ -2,7 +2,7 @@
 
 package sm4
 
-const asmHelpersAvailable = false
+const zvAsmHelpersAvailable = false
 
 func vCopyAsm(dst, src *byte, n int) { panic("direct call unavailable") }
 
